@@ -201,8 +201,12 @@ def check_struct(ctx, m, g, kind):
         ctx.violation("C02.struct", key + ["ctx"], C.where(m, f), "conv(ctx)", "other", STATEMENT)
     got = []
     for a in call["args"][1:]:
-        ids = A.path_ids(A.strip_expr(a))
-        got.append(binds.get(ids[0]) if ids and len(ids) == 1 else None)
+        a = A.strip_expr(a)
+        ids = A.path_ids(a)
+        if a["k"] == "field" and A.path_ids(a["base"]) == ["self"]:
+            got.append(a["member"])
+        else:
+            got.append(binds.get(ids[0]) if ids and len(ids) == 1 else None)
     want = [p["name"] for p in h.params]
     if got != want:
         ctx.violation("C02.struct", key + ["args"], C.where(m, f), want, got, STATEMENT, "StructMessage::emit")
